@@ -21,6 +21,24 @@ import numpy as np
 from .. import core, tablekit as tk
 from ..core import outcome
 
+_FLC = []
+
+
+def _first_letter_code():
+    if not _FLC:
+        from bionumpy.encodings import BaseEncoding
+        from bionumpy.sequence.rollable import RollableFunction
+
+        class FirstLetterCode(RollableFunction):
+            _encoding = BaseEncoding
+            window_size = 3
+
+            def __call__(self, windows):
+                return windows.raw()[..., 0]
+        _FLC.append(FirstLetterCode)
+    return _FLC[0]()
+
+
 RULE = ("one case = one call of a registered public function/method on generated arguments (event: digests of arguments before and after, "
         "digests of two results); non-trivial = the call takes a special path (signed or scientific numbers, list-valued or genotype columns, "
         "views, lazily read chunks); distinct by (function, argument digest)")
@@ -98,6 +116,8 @@ def _registry():
     from npstructures import RaggedArray
     from bionumpy.genomic_data import GenomicSequence
     from bionumpy.genomic_data.global_offset import GlobalOffset
+    from bionumpy.alignments.cigar import count_reference_length
+    from bionumpy.encodings.alphabet_encoding import CigarOpEncoding
     from bionumpy.encodings.vcf_encoding import GenotypeRowEncoding, PhasedGenotypeRowEncoding
 
     def ivs(rng, n=None, disjoint=False):
@@ -163,6 +183,11 @@ def _registry():
                                                       lambda r: ((lambda iv: Interval(iv.chromosome, np.minimum(iv.start, 19), iv.stop + 12))(ivs(r)),), False),
         "GlobalOffset.start_ends_from_intervals[do_clip]": (lambda t: GlobalOffset({"chr1": 20, "chr2": 30}).start_ends_from_intervals(t, do_clip=True),
                                                             lambda r: ((lambda iv: Interval(iv.chromosome, np.minimum(iv.start, 19), iv.stop + 12))(ivs(r)),), False),
+        # reference length of CIGAR strings that hold operations which do not consume the reference (I, S): the lengths given stay as they are
+        "count_reference_length": (count_reference_length, lambda r: (lambda k_: (bnp.as_encoded_array(["MIS", "SMDM", "M"][:k_], CigarOpEncoding),
+                                                                                   RaggedArray([[5, 2, 3], [4, 10, 1, 7], [9]][:k_])))(r.randint(1, 3)), False),
+        # a user-defined function rolled over the sequences with mode="same" (the tail of every row is zeroed in the RESULT, never in the argument)
+        "RollableFunction.rolling_window[same]": (lambda sq: _first_letter_code().rolling_window(sq, mode="same"), lambda r: (bnp.as_encoded_array(["acgtacgt", "ggtca", "ttt"][:r.randint(1, 3)]),), False),
         # genotype columns as text rows ending in a newline, encoded to genotype codes
         "GenotypeRowEncoding.encode": (lambda t: GenotypeRowEncoding.encode(t), lambda r: (bnp.as_encoded_array(["0|1\t1|1\n", "1/1\t0/0\n", ".|.\t0|1\n"][:r.randint(1, 3)]),), False),
         "PhasedGenotypeRowEncoding.encode": (lambda t: PhasedGenotypeRowEncoding.encode(t), lambda r: (bnp.as_encoded_array(["0|1\t1|1\n", "1|1\t0|0\n"][:r.randint(1, 2)]),), False),
